@@ -2,7 +2,7 @@
 From Coq Require Import ZArith Reals List Lra Lia Sorted.
 From Flocq Require Import Core.Raux.
 From EG Require Import Num.Num Num.RNum Lib.Vec Model.Types Model.Curve Model.Closest Model.Spatial Model.Hull Model.Sampling.
-From EG Require Import Proofs.VecR Proofs.Spatial Proofs.Hull Proofs.Sampling.
+From EG Require Import Model.Circle Proofs.VecR Proofs.Spatial Proofs.Hull Proofs.Sampling Proofs.Circle.
 Import ListNotations.
 Local Open Scope R_scope.
 
@@ -76,3 +76,13 @@ Theorem C15_uniform_face_interval : forall (areas : list R) (r : R),
   (match i with O => True | S i' => nth i' cum 0 < r end) /\ r <= nth i cum 0.
 Proof. exact uniform_face_interval. Qed.
 Print Assumptions C15_uniform_face_interval.
+
+Notation C0 x y r := (@mkCirc RNum ((x, y) : @V2 RNum) r).
+(* ball pivot: the candidate ball centres of a step are the crossing points of the two circles of the ball's radius around the
+   working point and a neighbour (Circle2::intersections_with, C11); both crossing points are exactly one radius from both
+   points, so every reported centre is one radius from the two consecutive hull points *)
+Theorem C15_pivot_centre : forall (wx wy nx ny r : R), 0 <= r -> forall p q,
+  @intersections_with RNum (C0 wx wy r) (C0 nx ny r) = [p; q] ->
+  on_circle (C0 wx wy r) p /\ on_circle (C0 nx ny r) p /\ on_circle (C0 wx wy r) q /\ on_circle (C0 nx ny r) q.
+Proof. intros wx wy nx ny r Hr p q H. destruct (cc_two_points wx wy r nx ny r Hr Hr p q H) as (_ & A). exact A. Qed.
+Print Assumptions C15_pivot_centre.
